@@ -15,7 +15,9 @@ Verdicts (this file):
   * variant: the result of rule-alone / rule-removed / full differs from the engine's result of the unoptimized plan;
     if the unoptimized plan is not executable (subqueries, DISTINCT, coalesce need a rewrite first) the reference
     result decides and the result of the full pipeline is recorded as the engine-side confirmation;
-  * schema: output column names / logical types changed; optimizer: the optimizer returned an error.
+  * schema: output column names / logical types changed; optimizer: the optimizer returned an error (no plan yielded).
+A rewritten plan that fails to plan/execute while the plan before executes is NOT a verdict (the property speaks about
+plans that can both be executed): it is counted (…_after_plan_fails) and written to work/C03/after-plan-fails.json.
 Where the reference evaluation is an error the database is skipped; engine evaluation errors (division by zero) are
 not verdicts (SQL leaves the evaluation order open)."""
 import json, collections, re
@@ -111,8 +113,10 @@ def finding_key(plan_text, err=None):
 
 
 class Judge:
-    def __init__(self, ctx):
+    def __init__(self, ctx, dry=False):
         self.ctx = ctx
+        self.dry = dry            # selftest: collect would-be violations instead of reporting them
+        self.dry_hits = []
         self.st = collections.Counter()
         self.rule_changed = collections.Counter()
         self.rule_compared = collections.Counter()
@@ -120,9 +124,13 @@ class Judge:
         self.nontrivial = set()
         self.samples = []
         self.raised = 0
+        self.notes = []
 
     def raise_(self, case, res, kind, what, d, before, after, oracle, views):
         self.st["violations_" + kind] += 1
+        if self.dry:
+            self.dry_hits.append((kind, what))
+            return
         if self.raised >= 12:
             return
         bad = res["plans"][after]["text"] if after is not None else ""
@@ -165,8 +173,11 @@ class Judge:
                     return compared
                 self.st["both_differ_from_reference"] += 1
             if sa == "error":
-                self.raise_(case, res, kind, what, d, b, a, f"{what}: the plan AFTER fails ({ma[:300]}) while the plan BEFORE executes", views)
-                return compared
+                # "whenever both plans can be executed": a rewritten plan that fails is outside the property as stated;
+                # it is counted and kept as a note (work/C03/after-plan-fails.json), never a verdict of C03
+                self.st[f"{kind}_after_plan_fails"] += 1
+                self.notes.append({"what": what, "sql": case["sql"], "layout": res.get("layout"), "db_index": d,
+                                   "before": res["plans"][b]["text"], "after": res["plans"][a]["text"], "error": ma[:2000]})
         return compared
 
     def judge(self, case, res):
@@ -231,6 +242,46 @@ class Judge:
                         break
 
 
+def selftest(ctx, cases, res, limit=25):
+    """Binding demonstration on every run: corrupt the engine's AFTER result of rule steps that were accepted (drop a row)
+    and the output names of one plan; the oracle must reject every corruption."""
+    import copy
+    tried = detected = 0
+    for c in cases:
+        r = res[c["id"]]
+        if "chain" not in r or c["expect"]["err"] or c["mode"] not in ("bag", "ordered"):
+            continue
+        for st in r["chain"]:
+            e = r["exec"][st["after"]][0]
+            if st["changed"] and e and e.get("rows") and (r["exec"][st["before"]][0] or {}).get("rows") is not None:
+                r2 = copy.deepcopy(r)
+                r2["exec"][st["after"]][0]["rows"] = e["rows"][1:]
+                for k, row in enumerate(r2["exec"]):      # plans later in the chain keep the real rows; only this plan is corrupted
+                    pass
+                j = Judge(ctx, dry=True)
+                j.judge(c, r2)
+                tried += 1
+                detected += 1 if any(k in ("step", "variant", "reference") for k, _ in j.dry_hits) else 0
+                break
+        if tried >= limit:
+            break
+    sch = 0
+    for c in cases:
+        r = res[c["id"]]
+        if "plans" in r and len(r["plans"]) > 1:
+            r2 = copy.deepcopy(r)
+            r2["plans"][1]["names"] = ["x"] + r2["plans"][1]["names"][1:]
+            j = Judge(ctx, dry=True)
+            j.judge(c, r2)
+            sch = 1 if any(k == "schema" for k, _ in j.dry_hits) else 0
+            tried += 1
+            detected += sch
+            break
+    if tried == 0 or detected != tried:
+        raise ToolError(f"C03 selftest: {detected} of {tried} corrupted observations were rejected by the oracle")
+    return {"corrupted_observations": tried, "rejected_by_oracle": detected}
+
+
 def run_harness_cases(ctx, cases, tag, threads, variant_dbs, extra=()):
     inp, out = ctx.path(f"{tag}.in.ndjson"), ctx.path(f"{tag}.out.ndjson")
     write_ndjson(inp, [dict(semcases.harness_case(c), **({"layout": c["layout"]} if c.get("layout") else {})) for c in cases])
@@ -267,6 +318,10 @@ def run(ctx):
     res, summary = run_harness_cases(ctx, cases, "c03", threads, vdbs)
     for c in cases:
         J.judge(c, res[c["id"]])
+    if J.notes:
+        json.dump(J.notes, open(ctx.path("after-plan-fails.json"), "w"), indent=1)
+        log(f"note: {len(J.notes)} rewritten plan(s) fail while the plan before executes (not a C03 verdict), see work/C03/after-plan-fails.json")
+    st_res = selftest(ctx, cases, res)
     rules = res[cases[0]["id"]].get("rules") or next(r["rules"] for r in res.values() if "rules" in r)
     never = [r for r in rules if J.rule_changed[r] == 0]
     feats = collections.Counter()
@@ -284,12 +339,12 @@ def run(ctx):
         "rule_steps_changed": dict(J.rule_changed), "rule_steps_compared_before_after": dict(J.rule_compared),
         "rules_never_fired": never, "variants_compared": dict(J.variant_compared), "status_counts": dict(sorted(J.st.items())),
         "operator_coverage": dict(sorted(feats.items())),
-        "spec_rewrites": spec, "generator_states": gen_states,
+        "spec_rewrites": spec, "generator_states": gen_states, "selftest": st_res,
     }, assumptions=[
         "SQL renderer (lib/sqlcases.py) trusted; value scope ints {NULL,-1,0,1,2}, 3 strings, booleans, tables of 0..4 rows",
         "plans containing subqueries / DISTINCT / coalesce cannot be executed before the rule that rewrites them: there the TLA+ reference result "
         "(calibrated by C01) decides and the full pipeline's engine result is recorded in the replay file",
         "databases whose reference evaluation is an error are skipped; engine division-by-zero errors are not verdicts",
         "rules that never fire on the fragment (listed in rules_never_fired) are not exercised",
-        "binding demonstrated while building: the null-aware anti join defect (known finding) was found by the step oracle; "
+        "binding demonstrated on every run (selftest: accepted AFTER results with one row dropped / one output name changed must be rejected) and while building: the null-aware anti join defect (known finding) was found by the step oracle; "
         "Rewrites.tla refutes the unguarded variants of filter_agg / sort_const, i.e. the two optimizer defects found while calibrating C01"])
